@@ -10,7 +10,7 @@ def run(rep, tier):
     lib.proof_gate(rep, PROP, THEOREMS, IMPORTS)
     n, cyc = (96, 400) if tier == "quick" else (6000, 600)
     n = rep.scale(n)
-    agg = runner.correspondence(rep, prop=PROP, mod_name="harness.sramsim", driver_kind="sram", ncases=n, extra=(cyc,),
+    agg = runner.correspondence(rep, prop=PROP, mod_name="harness.sramsim", legal_only=True, driver_kind="sram", ncases=n, extra=(cyc,),
                                 nontrivial=lambda r: r["stats"]["writes"] >= 3 and r["stats"]["reads"] >= 3 and r["stats"]["held_through_ack"] >= 1,
                                 sample_fmt=lambda r: {"sram": r["descr"], "cycles (cyc stb we adr sel dat_w)": r["lines"][1:6], "observed (ack dat_r@read-ack)": r["obs"][:5]})
     rep.coverage.update(agg)
